@@ -218,6 +218,12 @@ def _mech(detail: str, shape: str = "") -> str:
         # a field named like a builtin (list, dict, int ...) shadows it when annotations are evaluated
         # with the class namespace (pydantic does that) / later in the class body
         return ":builtin-name-shadowed-by-field" + (":" + shape if shape else "")
+    if shape and "none_required" in detail and "Input should be None" in detail:
+        # the same shadowing seen through pydantic's validator: `dict[int, int]` / `list[int]` evaluated in a class namespace
+        # where `int` is a (oneof / optional) FIELD whose default is None, so the element type became NoneType.  `shape` comes
+        # from the schema (shadow_shape), not from the tree's output: it is only non-empty when the message really has a
+        # builtin-named field in a position the plugin's qualification rule does not cover
+        return ":builtin-name-shadowed-by-field" + ":" + shape
     return ""
 
 
@@ -533,7 +539,14 @@ def _compare_histories(builds, shard, name, res: Result, w0):
             try:
                 got = _history_trace(b, mi.full_name, ta, tb)
             except Exception as e:
-                res.violation("history", [cfg_sig, "history-raised:" + type(e).__name__, "-", "-"], f"{name} [{cfg}]: {mi.full_name}: {e!r}", w)
+                mech = _mech(str(e), shadow_shape(_closure(b0, mi), cfg))
+                if mech:
+                    # the value cannot even be constructed under this configuration for a recorded reason (builtin-named field
+                    # shadowing): the same signature as in the plain behaviour comparison
+                    res.violation("behaviour", [cfg_sig, "construct-raised:" + type(e).__name__ + mech, "history", "-"],
+                                  f"{name} [{cfg}]: {mi.full_name}: {str(e)[:300]}", w)
+                else:
+                    res.violation("history", [cfg_sig, "history-raised:" + type(e).__name__, "-", "-"], f"{name} [{cfg}]: {mi.full_name}: {e!r}", w)
                 continue
             if got != want:
                 k = next((i for i, (x, y) in enumerate(zip(want, got)) if x != y), min(len(want), len(got)))
